@@ -129,6 +129,49 @@ void goe(Rng& rng)
         }
 }
 
+// binary operators and comparisons between scaled nests with different exponents: `+ -` and the comparisons
+// align the coarser operand with scale<k> of its representation (a wrapper for sc(ov)/sc(rd)/sc(ov(rd))),
+// `* / %` act on the representations; the oracle is the same expression on scaled_integer over the bare integers
+template<class A, class B, bool All>
+void gob(Rng& rng)
+{
+    using TA = inner_t<A>;
+    using TB = inner_t<B>;
+    std::vector<TA> lv;
+    std::vector<TB> rv;
+    if constexpr (All && sizeof(TA) == 1 && sizeof(TB) == 1) {
+        lv = all_vals<TA>();
+        rv = all_vals<TB>();
+    } else {
+        lv = vals<TA>(rng, 8 * scale_from_env(), sizeof(TA) > 4 ? 13 : 6);
+        rv = vals<TB>(rng, 8 * scale_from_env(), sizeof(TB) > 4 ? 13 : 6);
+    }
+    for (TA l : lv)
+        for (TB r : rv) {
+            A a = mk<A>(l);
+            B b = mk<B>(r);
+#define BINE(NAME, EXPR) \
+    { \
+        HEAD2("bine", NAME) VH_RUN(EXPR, print_num) \
+    }
+#define CMPE(NAME, EXPR) \
+    { \
+        HEAD2("cmpe", NAME) VH_RUN(EXPR, print_tv) \
+    }
+            BINE("add", a + b)
+            BINE("sub", a - b)
+            BINE("mul", a * b)
+            BINE("div", a / b)
+            BINE("mod", a % b)
+            CMPE("lt", a < b)
+            CMPE("le", a <= b)
+            CMPE("gt", a > b)
+            CMPE("ge", a >= b)
+            CMPE("eq", a == b)
+            CMPE("ne", a != b)
+        }
+}
+
 // ++ / -- : new value of the operand and the value the expression returns
 template<class A>
 void incdec(Rng& rng)
